@@ -203,15 +203,16 @@ func (e Effect) String() string {
 }
 
 type Path struct {
-	Guards  []Atom
-	Effects []Effect
-	Results []*T
-	End     string // return | iter | exit | panic
-	Loop    int    // for iter: loop instance whose back edge ended the path
-	Loops   []int  // loops active at the end
-	EndPos  token.Pos
-	Blocks  []string
-	Carried map[int]*T // for iter: value of each loop-carried variable of the loop at the back edge
+	Guards    []Atom
+	Effects   []Effect
+	Results   []*T
+	End       string // return | iter | exit | panic
+	Loop      int    // for iter: loop instance whose back edge ended the path
+	Loops     []int  // loops active at the end
+	EndPos    token.Pos
+	Blocks    []string
+	Carried   map[int]*T     // for iter: value of each loop-carried variable of the loop at the back edge
+	LoopRange map[int]string // loop instance -> the collection its header ranges over (term string), when known
 }
 
 func (p *Path) String() string {
@@ -258,30 +259,35 @@ type loopInst struct {
 }
 
 type state struct {
-	env     map[envKey]*T
-	cells   map[cellKey]*T
-	cellSeq map[cellKey]int
-	fields  map[string]*T // "objterm|field" -> value
-	arrays  map[cellKey]map[int64]*T
-	guards  []Atom
-	gkeys   map[string]bool // key -> neg polarity present? stored as key+"|"+neg
-	effects []Effect
-	loops   []loopInst
-	resolve map[int]*T // carried id -> resolved constant
-	blocks  []string
-	seq     int
+	env       map[envKey]*T
+	cells     map[cellKey]*T
+	cellSeq   map[cellKey]int
+	fields    map[string]*T // "objterm|field" -> value
+	arrays    map[cellKey]map[int64]*T
+	guards    []Atom
+	gkeys     map[string]bool // key -> neg polarity present? stored as key+"|"+neg
+	effects   []Effect
+	loops     []loopInst
+	resolve   map[int]*T // carried id -> resolved constant
+	blocks    []string
+	seq       int
+	loopRange map[int]string
 }
 
 func (s *state) clone() *state {
 	n := &state{
-		env:     make(map[envKey]*T, len(s.env)),
-		cells:   make(map[cellKey]*T, len(s.cells)),
-		cellSeq: make(map[cellKey]int, len(s.cellSeq)),
-		fields:  make(map[string]*T, len(s.fields)),
-		arrays:  make(map[cellKey]map[int64]*T, len(s.arrays)),
-		gkeys:   make(map[string]bool, len(s.gkeys)),
-		resolve: make(map[int]*T, len(s.resolve)),
-		seq:     s.seq,
+		env:       make(map[envKey]*T, len(s.env)),
+		cells:     make(map[cellKey]*T, len(s.cells)),
+		cellSeq:   make(map[cellKey]int, len(s.cellSeq)),
+		fields:    make(map[string]*T, len(s.fields)),
+		arrays:    make(map[cellKey]map[int64]*T, len(s.arrays)),
+		gkeys:     make(map[string]bool, len(s.gkeys)),
+		resolve:   make(map[int]*T, len(s.resolve)),
+		seq:       s.seq,
+		loopRange: make(map[int]string, len(s.loopRange)),
+	}
+	for k, v := range s.loopRange {
+		n.loopRange[k] = v
 	}
 	for k, v := range s.env {
 		n.env[k] = v
@@ -400,7 +406,7 @@ func (p *Prog) Paths(entry *ssa.Function, opts PSOpts) []*Path {
 		x.loopCars = map[int][]int{}
 		x.carOf = map[int]carriedOrigin{}
 		x.closures = map[*T]*closureVal{}
-		st := &state{env: map[envKey]*T{}, cells: map[cellKey]*T{}, cellSeq: map[cellKey]int{}, fields: map[string]*T{}, arrays: map[cellKey]map[int64]*T{}, gkeys: map[string]bool{}, resolve: map[int]*T{}}
+		st := &state{env: map[envKey]*T{}, cells: map[cellKey]*T{}, cellSeq: map[cellKey]int{}, fields: map[string]*T{}, arrays: map[cellKey]map[int64]*T{}, gkeys: map[string]bool{}, resolve: map[int]*T{}, loopRange: map[int]string{}}
 		fr := x.newFrame(entry, nil)
 		for _, par := range entry.Params {
 			st.env[envKey{fr.id, par}] = &T{Op: "param", Name: par.Name(), V: par, Typ: concreteType(par.Type())}
@@ -479,7 +485,7 @@ func (x *explorer) emit(st *state, end string, results []*T, loop int, pos token
 		x.overflow = true
 		return
 	}
-	p := &Path{Guards: st.guards, Effects: st.effects, End: end, Loop: loop, EndPos: pos, Blocks: st.blocks}
+	p := &Path{Guards: st.guards, Effects: st.effects, End: end, Loop: loop, EndPos: pos, Blocks: st.blocks, LoopRange: st.loopRange}
 	for _, r := range results {
 		p.Results = append(p.Results, x.subst(st, r))
 	}
@@ -844,6 +850,12 @@ func (x *explorer) branch(st *state, fr *frame, b *ssa.BasicBlock, ins *ssa.If) 
 	ct := x.val(st, fr, ins.Cond)
 	atom, known, kv := x.cond(st, ct)
 	atom.Pos = ins.Cond.Pos()
+	if !known && atom.Kind == "itermore" && len(st.loops) > 0 {
+		l := st.loops[len(st.loops)-1]
+		if l.frame == fr.id && l.header == b && len(atom.A.Args) == 1 {
+			st.loopRange[l.id] = atom.A.Args[0].String()
+		}
+	}
 	succs := []int{0, 1}
 	// explore the in-loop successor first so that carried constants are known at the exit
 	if body, ok := x.loops(fr.fn)[b]; ok {
@@ -1026,6 +1038,10 @@ func (x *explorer) cond(st *state, t *T) (Atom, bool, bool) {
 	case "has":
 		return Atom{Kind: "has", A: t.Args[0], B: t.Args[1]}, false, false
 	case "itermore":
+		// a range over nil or over an empty literal has no iteration
+		if rg := t.Args[0]; rg.Op == "range" && len(rg.Args) == 1 && (rg.Args[0].IsNil() || (rg.Args[0].Op == "lit" && len(rg.Args[0].Args) == 0)) {
+			return Atom{}, true, false
+		}
 		return Atom{Kind: "itermore", A: t.Args[0]}, false, false
 	case "binop":
 		a, b := t.Args[0], t.Args[1]
@@ -1717,6 +1733,11 @@ func (x *explorer) call(st *state, fr *frame, b, prev *ssa.BasicBlock, idx int, 
 		x.run(st, nf, callee.Blocks[0], nil, 0)
 		return true
 	}
+	if name == "os.Exit" {
+		x.effect(st, fr, Effect{Kind: "extcall", Callee: name, Fn: callee, Args: args, Pos: ci.Pos()})
+		x.emit(st, "exit", args, 0, ci.Pos())
+		return true
+	}
 	if name == "maps.Clone" || name == "slices.Clone" || name == "golang.org/x/exp/slices.Clone" || name == "golang.org/x/exp/maps.Clone" {
 		x.nTerms++
 		var typ types.Type
@@ -1783,9 +1804,6 @@ func (x *explorer) builtin(st *state, fr *frame, name string, args []*T, ci ssa.
 				return mkConst(fmt.Sprint(len(s)), types.Typ[types.Int])
 			}
 		}
-		if a.Op == "fresh" && a.Name == "map" && !x.mutated(st, a) {
-			return mkConst("0", types.Typ[types.Int])
-		}
 		return &T{Op: "len", Args: []*T{a}, V: v, Typ: types.Typ[types.Int]}
 	case "append":
 		var typ types.Type
@@ -1824,7 +1842,7 @@ func (x *explorer) mutated(st *state, m *T) bool {
 
 func dumpPaths(p *Prog, name string) {
 	fn := p.Func(name)
-	paths := p.Paths(fn, PSOpts{})
+	paths := p.Paths(fn, PSOpts{NoInline: dumpNoInline})
 	for i, pa := range paths {
 		fmt.Printf("%3d %s\n", i, pa)
 	}
